@@ -119,6 +119,17 @@ func (g *Gen) atomicCall(x ssa.Value, cc *ssa.CallCommon, st *State) bool {
 		p := g.val(cc.Args[0])
 		g.setVal(x, g.load(st, p), x.Type())
 		return true
+	case strings.HasPrefix(name, "Add"):
+		// atomic read-modify-write: one step; the result is the new value
+		g.interfere(st)
+		prev := st.clone()
+		p := g.val(cc.Args[0])
+		nv := g.wrap(add(g.load(st, p), g.val(cc.Args[1]).S), x.Type())
+		n := g.define("atomicadd", "Int", nv)
+		g.storeTo(st, p, n)
+		g.setVal(x, n, x.Type())
+		g.checkGuar(prev, st, fmt.Sprintf("atomic.%s#%d", name, g.bump("atomic."+name)), cc.Pos())
+		return true
 	case strings.HasPrefix(name, "Store"):
 		g.interfere(st)
 		prev := st.clone()
